@@ -34,8 +34,27 @@ type Draw struct {
 }
 
 type SubJ struct {
-	P [][2]int `json:"p"`
-	C bool     `json:"c"`
+	P   [][2]int `json:"p"`
+	C   bool     `json:"c"`
+	Arc [][3]int `json:"arc"` // per point: r, large, sweep (r = 0: line)
+}
+
+func (s SubJ) arcAt(i int) (r int, large, sweep bool) {
+	if i < len(s.Arc) {
+		return s.Arc[i][0], s.Arc[i][1] != 0, s.Arc[i][2] != 0
+	}
+	return 0, false, false
+}
+
+func hasArc(h *Header, shape int) bool {
+	for _, sub := range h.Shapes[shape-1] {
+		for i := range sub.P {
+			if r, _, _ := sub.arcAt(i); r > 0 {
+				return true
+			}
+		}
+	}
+	return false
 }
 
 type PaintJ struct {
@@ -94,6 +113,8 @@ func shapePath(h *Header, s int) *canvas.Path {
 		for i, v := range sub.P {
 			if i == 0 {
 				p.MoveTo(float64(v[0]), float64(v[1]))
+			} else if r, large, sweep := sub.arcAt(i); r > 0 {
+				p.ArcTo(float64(r), float64(r), 0, large, sweep, float64(v[0]), float64(v[1]))
 			} else {
 				p.LineTo(float64(v[0]), float64(v[1]))
 			}
@@ -103,6 +124,139 @@ func shapePath(h *Header, s int) *canvas.Path {
 		}
 	}
 	return p
+}
+
+// refShape: the requested geometry of draw d as fine polylines in canvas space, evaluated by the independent oracle from the
+// tables of the specification (lines and circular arcs), not by canvas.
+func refShape(h *Header, d Draw) []oracle.Contour {
+	key := fmt.Sprintf("shape/%d/%d/%d", d.Shape, d.View, d.Cs)
+	if v, ok := outlineCache.Load(key); ok {
+		return v.([]oracle.Contour)
+	}
+	m := csv(h, d.Cs).Mul(mat6(h.Views[d.View-1]))
+	var out []oracle.Contour
+	for _, sub := range h.Shapes[d.Shape-1] {
+		var segs []oracle.Seg
+		var cur oracle.Pt
+		for i, v := range sub.P {
+			pt := oracle.Pt{X: float64(v[0]), Y: float64(v[1])}
+			switch r, large, sweep := sub.arcAt(i); {
+			case i == 0:
+				segs = append(segs, oracle.Seg{Cmd: oracle.CmdMove, End: pt})
+			case r > 0:
+				segs = append(segs, oracle.Seg{Cmd: oracle.CmdArc, Start: cur, End: pt, Rx: float64(r), Ry: float64(r), Large: large, Sweep: sweep})
+			default:
+				segs = append(segs, oracle.Seg{Cmd: oracle.CmdLine, Start: cur, End: pt})
+			}
+			cur = pt
+		}
+		if sub.C {
+			segs = append(segs, oracle.Seg{Cmd: oracle.CmdClose, Start: cur, End: oracle.Pt{X: float64(sub.P[0][0]), Y: float64(sub.P[0][1])}})
+		}
+		for _, c := range oracle.Flatten(segs, 64) {
+			for k, q := range c.Pts {
+				t := m.Dot(canvas.Point{X: q.X, Y: q.Y})
+				c.Pts[k] = oracle.Pt{X: t.X, Y: t.Y}
+			}
+			out = append(out, c)
+		}
+	}
+	outlineCache.Store(key, out)
+	return out
+}
+
+func fills(rule, w int) bool {
+	switch rule {
+	case 1:
+		return w%2 != 0
+	case 2:
+		return w > 0
+	case 3:
+		return w < 0
+	}
+	return w != 0
+}
+
+// fillMatches: draws with a curved shape whose requested fill region (shape under the draw matrix, requested rule) equals the
+// region obs fills when read with the non-zero rule (fo) / the even-odd rule (foe).
+func fillMatches(h *Header, prog []Draw, obs []oracle.Contour) (fo, foe []int) {
+	fo, foe = []int{}, []int{}
+	if len(obs) == 0 {
+		return
+	}
+	for j, d := range prog {
+		if d.Fill == "none" || !hasArc(h, d.Shape) {
+			continue
+		}
+		ref := refShape(h, d)
+		x0, y0, x1, y1 := bbox(ref)
+		const n = 30
+		okNZ, okEO, used := true, true, 0
+		for iy := 0; iy < n && (okNZ || okEO); iy++ {
+			for ix := 0; ix < n; ix++ {
+				p := oracle.Pt{X: x0 - 0.3 + (x1-x0+0.6)*(float64(ix)+0.37)/n, Y: y0 - 0.3 + (y1-y0+0.6)*(float64(iy)+0.61)/n}
+				if oracle.Dist(obs, p, true) < 0.03 || oracle.Dist(ref, p, true) < 0.03 {
+					continue
+				}
+				used++
+				want := fills(d.Rule, oracle.Winding(ref, p))
+				w := oracle.Winding(obs, p)
+				if (w != 0) != want {
+					okNZ = false
+				}
+				if (w%2 != 0) != want {
+					okEO = false
+				}
+			}
+		}
+		if used < 60 {
+			continue
+		}
+		if okNZ {
+			fo = append(fo, j+1)
+		}
+		if okEO {
+			foe = append(foe, j+1)
+		}
+	}
+	return
+}
+
+// curveMatches: draws with a curved shape whose requested path (as a curve, with the same closedness per sub-path) coincides
+// with the path obs within 0.02 mm.
+func curveMatches(h *Header, prog []Draw, obs []oracle.Contour) []int {
+	so := []int{}
+	for j, d := range prog {
+		if d.Stroke == "none" || !hasArc(h, d.Shape) {
+			continue
+		}
+		ref := refShape(h, d)
+		if len(ref) != len(obs) {
+			continue
+		}
+		ok := true
+		for k := range ref {
+			a, b := []oracle.Contour{ref[k]}, []oracle.Contour{obs[k]}
+			if ref[k].Closed != obs[k].Closed {
+				ok = false
+				break
+			}
+			for _, q := range ref[k].Pts {
+				if oracle.Dist(b, q, false) > 0.02 {
+					ok = false
+				}
+			}
+			for _, q := range obs[k].Pts {
+				if oracle.Dist(a, q, false) > 0.02 {
+					ok = false
+				}
+			}
+		}
+		if ok {
+			so = append(so, j+1)
+		}
+	}
+	return so
 }
 
 func paint(h *Header, name string) canvas.Paint {
@@ -361,7 +515,7 @@ func opEvent(op string, a []int, g int) ev {
 	if a == nil {
 		a = []int{}
 	}
-	return ev{"op": op, "a": a, "g": g, "s": "", "o": []int{}, "oe": []int{}, "ou": []int{}, "oue": []int{}, "ph": 0, "u": 0}
+	return ev{"op": op, "a": a, "g": g, "s": "", "o": []int{}, "oe": []int{}, "ou": []int{}, "oue": []int{}, "fo": []int{}, "foe": []int{}, "so": []int{}, "ph": 0, "u": 0}
 }
 
 func pt(f []float64, i int) oracle.Pt { return oracle.Pt{X: f[i], Y: f[i+1]} }
@@ -462,9 +616,22 @@ func EventsPDF(h *Header, id int, prog []Draw, file []byte) ([]ev, error) {
 					geo.Close()
 				}
 			case "f", "F", "f*", "B", "B*", "b", "b*":
+				if op.Op == "b" || op.Op == "b*" {
+					geo.Close()
+				}
 				e["o"], e["oe"], e["ou"], e["oue"] = regionMatches(h, prog, geo.Subs)
+				e["fo"], e["foe"] = fillMatches(h, prog, geo.Subs)
+				if op.Op[0] == 'B' || op.Op[0] == 'b' {
+					e["so"] = curveMatches(h, prog, geo.Subs)
+				}
 				geo.Reset()
-			case "S", "s", "n", "S*", "s*":
+			case "S", "s":
+				if op.Op == "s" {
+					geo.Close()
+				}
+				e["so"] = curveMatches(h, prog, geo.Subs)
+				geo.Reset()
+			case "n", "S*", "s*":
 				geo.Reset()
 			}
 		}
@@ -576,8 +743,10 @@ func EventsPS(h *Header, id int, prog []Draw, file []byte) ([]ev, error) {
 				e["a"], e["g"] = []int{}, 1
 			case "fill", "eofill":
 				e["o"], e["oe"], e["ou"], e["oue"] = regionMatches(h, prog, geo.Subs)
+				e["fo"], e["foe"] = fillMatches(h, prog, geo.Subs)
 				geo.Reset()
 			case "stroke":
+				e["so"] = curveMatches(h, prog, geo.Subs)
 				geo.Reset()
 			}
 		}
@@ -621,7 +790,7 @@ func EventsSVG(h *Header, id int, prog []Draw, file []byte) ([]ev, error) {
 			}
 			out = append(out, ev{"op": "svg", "a": a, "s": uw, "vb": vb, "g": g})
 		case "path", "image":
-			e := ev{"op": el.Tag, "pr": el.Props, "d": el.D, "tf": el.Tf, "tm": []int{1, 0, 0, 1, 0, 0}, "tmg": 0, "o": []int{}, "oe": []int{}, "ou": []int{}, "oue": []int{}, "a": []int{}, "g": 1, "s": ""}
+			e := ev{"op": el.Tag, "pr": el.Props, "d": el.D, "tf": el.Tf, "tm": []int{1, 0, 0, 1, 0, 0}, "tmg": 0, "o": []int{}, "oe": []int{}, "ou": []int{}, "oue": []int{}, "fo": []int{}, "foe": []int{}, "so": []int{}, "a": []int{}, "g": 1, "s": ""}
 			if el.Props == nil {
 				e["pr"] = []oracle.GSProp{}
 			}
@@ -653,6 +822,8 @@ func EventsSVG(h *Header, id int, prog []Draw, file []byte) ([]ev, error) {
 				}
 				svgGeo(geo, el.D)
 				e["o"], e["oe"], e["ou"], e["oue"] = regionMatches(h, prog, geo.Subs)
+				e["fo"], e["foe"] = fillMatches(h, prog, geo.Subs)
+				e["so"] = curveMatches(h, prog, geo.Subs)
 			}
 			out = append(out, e)
 		default:
